@@ -118,6 +118,48 @@ for it in range(N // 5):
     R.check("superimpose acts model-wise on stacks", "superimpose stack", {"draw": it}, stack_contract)
 
 
+def mixed_stack_contract(kinds, noise):
+    """a stack whose models need the reflection correction or not, independently of each other (a mirrored
+    copy has its best proper fit only after the correction): every model is fitted as if it were alone"""
+    fixed = points("generic", 6)
+    models = []
+    for k in kinds:
+        base = fixed - fixed.mean(0)
+        if k == "mirrored":
+            base = base * np.array([1, 1, -1])
+        elif k == "planar":
+            base = base * np.array([1, 1, 0])
+        models.append(base @ rot(rng).T + rng.uniform(-5, 5, size=3) + rng.normal(size=fixed.shape) * noise)
+    models = np.stack(models)
+    fitted, tr = struc.superimpose(fixed.astype(np.float32), models.astype(np.float32))
+    rots = np.asarray(tr.rotation, dtype=float).reshape(-1, 3, 3)
+    if len(rots) != len(kinds):
+        return f"{len(rots)} rotations for {len(kinds)} models"
+    for m, k in enumerate(kinds):
+        if not np.allclose(rots[m] @ rots[m].T, np.eye(3), atol=1e-4) or abs(np.linalg.det(rots[m]) - 1) > 1e-4:
+            return f"model {m} ({k}): rotation has determinant {np.linalg.det(rots[m]):.4f}"
+        alone, _ = struc.superimpose(fixed.astype(np.float32), models[m].astype(np.float32))
+        r_stack, r_alone = rmsd(fixed, np.asarray(fitted[m], dtype=float)), rmsd(fixed, np.asarray(alone, dtype=float))
+        A, B = models[m] - models[m].mean(0), fixed - fixed.mean(0)
+        U, S, Vt = np.linalg.svd(A.T @ B)
+        d = np.sign(np.linalg.det(U @ Vt))
+        best = rmsd(B, A @ (U @ np.diag([1, 1, d]) @ Vt))
+        if r_stack > best + 2e-3 or abs(r_stack - r_alone) > 2e-3:
+            return f"model {m} ({k}) fitted within the stack has RMSD {r_stack:.4f}, alone {r_alone:.4f}, optimal {best:.4f}"
+    if not np.allclose(tr.apply(models.astype(np.float32)), fitted, atol=1e-3):
+        return "apply() does not act model-wise on the stack"
+    return None
+
+
+KINDS = [("rigid", "mirrored"), ("mirrored", "rigid"), ("rigid", "rigid", "mirrored"), ("mirrored", "mirrored"), ("rigid", "planar", "mirrored"),
+         ("mirrored", "rigid", "rigid", "mirrored")]
+for it in range(max(2, N // 10)):
+    for kinds in KINDS:
+        for noise in (0.0, 0.3):
+            R.check("superimpose acts model-wise on stacks", "superimpose stack with models of either handedness",
+                    {"models": list(kinds), "noise": noise, "draw": it}, lambda kinds=kinds, noise=noise: mixed_stack_contract(kinds, noise))
+
+
 def mask_contract():
     fixed = points("generic", 7)
     mask = np.array([True, True, True, True, False, False, True])
